@@ -577,6 +577,16 @@ fn stack(out: &mut Vec<GSpec>) {
     ] {
         quick_exprs.push(e.to_string());
     }
+    // open-ended peek slices under a repetition (the slice is the only consumer of the iteration)
+    for e in [
+        "PUSH(\"a\") ~ (PEEK[..])* ~ DROP",
+        "PUSH(\"ab\") ~ (PEEK[0..])* ~ \"b\"?",
+        "PUSH(\"a\") ~ PUSH(\"b\") ~ (PEEK[1..])+ ~ PEEK_ALL?",
+        "PUSH(\"a\") ~ (PEEK[-1..] ~ \"b\"?)* ~ POP",
+        "PUSH(\"a\") ~ (PEEK[0..1])* ~ \"b\"",
+    ] {
+        quick_exprs.push(e.to_string());
+    }
     // repetitions whose iterations make progress on the stack only (zero width)
     for e in [
         "DROP* ~ \"a\"",
@@ -1089,6 +1099,11 @@ fn arity(out: &mut Vec<GSpec>) {
             let elems: Vec<&str> = (0..n).map(|i| if i % 3 == 2 { "kb" } else { "ka" }).collect();
             rules.push(RuleSpec::new("s", 'N', &elems.join(" ~ ")));
             rules.push(RuleSpec::new("sx", 'X', &elems.join(" ~ ")));
+            // alternatives that differ only in how many iterations an open-ended counted repetition demands
+            rules.push(RuleSpec::helper("km3", 'N', "ka{3,}"));
+            rules.push(RuleSpec::helper("km", 'N', "ka{2,}"));
+            rules.push(RuleSpec::new("cm", 'N', "km3 | km | ka"));
+            rules.push(RuleSpec::new("cmx", 'C', "km3 | km | kb"));
             rules.push(RuleSpec::new("r", 'N', "ka*"));
             rules.push(RuleSpec::new("rp", 'N', "(ka ~ kb)+"));
             rules.push(RuleSpec::new("rs", 'N', "(ka ~ kb)*"));
@@ -1149,6 +1164,8 @@ fn arity(out: &mut Vec<GSpec>) {
                     match r.name.as_str() {
                         "c" | "ca" => r.body = group(&alts, "|"),
                         "s" | "sx" => r.body = group(&elems_s, "~"),
+                        "cm" => r.body = group(&strs(&["km3", "km", "ka"]), "|"),
+                        "cmx" => r.body = group(&strs(&["km3", "km", "kb"]), "|"),
                         _ => {}
                     }
                 }
